@@ -75,6 +75,20 @@ class S(object):
     self.note = note
 
 
+def scratch_dir(prefix):
+  """Scratch directory for generated rule/schema/list files: under the run's work directory (removed
+  by the runner even when a harness process is killed), else a temp dir removed at exit."""
+  import atexit
+  import shutil
+  import tempfile
+  base = os.environ.get('VP_TMP')
+  if base:
+    os.makedirs(base, exist_ok=True)
+  d = tempfile.mkdtemp(prefix=prefix, dir=base or None)
+  atexit.register(lambda: shutil.rmtree(d, ignore_errors=True))
+  return d
+
+
 _booted = False
 
 
